@@ -358,9 +358,52 @@ void run_t(vf::Ctx& c)
     c.nontrivial = mixed && maxn >= 2 && nonuniform;
 }
 
+// the documented formulas hold for every N, also beyond anything an iteration in a test can perform:
+// results built through the public constructor with N up to 2^53
+template <typename T>
+void formula_layer(vf::Ctx& c)
+{
+    vf::Tape& t = c.t;
+    std::size_t N;
+    switch (t.pick(5))
+    {
+    case 0: N = 2 + t.range(0, 100); break;
+    case 1: N = (std::size_t(1) << 32) - 3 + t.range(0, 6); break;            // around 2^32
+    case 2: N = (std::size_t(1) << (33 + t.pick(20))) + t.range(0, 1000); break; // beyond 2^32
+    case 3: N = 2 + t.range(0, 100000000); break;
+    default: N = std::size_t(3037000499ull) + t.range(0, 4); break;             // N(N-1) around 2^63
+    }
+    long double const E = (t.flag() ? -1 : 1) * std::pow(10.0L, 4 * t.unit() - 2);
+    long double const rel = std::pow(10.0L, -2 + 3 * t.unit());
+    long double const S = std::fabs(E) * rel; // error of the mean
+    T const sum = static_cast<T>(static_cast<long double>(N) * E);
+    T const sumsq = static_cast<T>(static_cast<long double>(N) * (E * E + (N - 1.0L) * S * S));
+    hep::mc_result<T> const r(N, N / 2, N / 2, sum, sumsq);
+    c.desc << vf::type_name<T>::get() << " formulas N=" << N << " sum=" << vf::show(sum) << " sumsq=" << vf::show(sumsq);
+    long double const eps = vf::eps<T>();
+    long double const Er = static_cast<long double>(sum) / N;
+    long double const a = static_cast<long double>(sumsq) / N, b = Er * Er;
+    long double const var = (a - b) / (N - 1.0L);
+    IterCheck<T> ic{c, 0};
+    ic.close(r.value(), Er, 4 * eps * std::fabs(Er), "C02:value", "value()");
+    long double const tol = 8 * eps * (a + b) / (N - 1.0L);
+    if (var > 64 * tol)
+    {
+        ic.close(r.variance(), var, tol, "C02:variance", "variance()");
+        long double const s = std::sqrt(var);
+        ic.close(r.error(), s, (tol / var + 4 * eps) * s, "C02:error", "error()");
+        c.label("formula-layer-judged");
+    }
+    if (N > (std::size_t(1) << 32)) { c.label("N>2^32"); }
+    c.label("formula-layer");
+    c.nontrivial = N > (std::size_t(1) << 32) && var > 64 * tol;
+    ++c.sub;
+}
+
 void run(vf::Ctx& c)
 {
-    vf::with_type(c.t, [&](auto tag) { run_t<decltype(tag)>(c); });
+    bool const formulas = c.t.pick(8) == 7;
+    vf::with_type(c.t, [&](auto tag) { if (formulas) { formula_layer<decltype(tag)>(c); } else { run_t<decltype(tag)>(c); } });
 }
 
 } // namespace
